@@ -160,7 +160,7 @@ PROPS["C04"] = {
 }
 
 PROPS["C05"] = {
-    "lean": ["WsVerif.Props.C05", "WsVerif.Props.C05Ext", "WsVerif.Props.C05Discard", "WsVerif.Props.C05ReadData", "WsVerif.Props.C16ReadMessage", "WsVerif.Bridge.C04"],
+    "lean": ["WsVerif.Props.C05", "WsVerif.Props.C05Ext", "WsVerif.Props.C05Discard", "WsVerif.Props.C05ReadData", "WsVerif.Props.C16ReadMessage", "WsVerif.Props.C16Handler", "WsVerif.Bridge.C04"],
     "rule": "Every valid prefix of 0..2 complete units (optionally followed by an open fragmented message, with interleaved pong) extended by "
             "every offending frame of the alphabet (reserved data/control opcode, control > 125, non-final control, RSV without extension, RSV on "
             "control, wrong masking on data and on control, new data frame while fragmented, continuation while idle, wrongly masked "
@@ -174,7 +174,7 @@ PROPS["C05"] = {
 }
 
 PROPS["C16"] = {
-    "lean": ["WsVerif.Props.C16", "WsVerif.Props.C16Discard", "WsVerif.Props.C16DiscardMsg", "WsVerif.Props.C16DiscardCut", "WsVerif.Props.C16ReadData", "WsVerif.Props.C16ReadMessage", "WsVerif.Bridge.C04"],
+    "lean": ["WsVerif.Props.C16", "WsVerif.Props.C16Discard", "WsVerif.Props.C16DiscardMsg", "WsVerif.Props.C16DiscardCut", "WsVerif.Props.C16ReadData", "WsVerif.Props.C16ReadMessage", "WsVerif.Props.C16Handler", "WsVerif.Bridge.C04"],
     "rule": "Reader: streams of 1-3 messages (with a 10-byte ping between fragments) cut at EVERY byte offset, ending in EOF and in a transport "
             "error, under chunkings {whole,1,5}, through ReadMessage, the ReadData family and Reader scripts. Writer: random op sequences "
             "with the destination failing at each write index 0..13, followed by Flush/Write/Flush/FlushFragment/WriteThrough probes; "
